@@ -261,7 +261,6 @@ package gomatrixserverlib
 //@   property C07
 //@   frameprop C09
 //@   requires a != nil && ctxSafe(*a) && evSafe(event)
-//@   requires senderUser(*a, event)[1] == nil ==> senderUser(*a, event)[0] != nil
 //@   ensures iff: (err == nil) <==> aliasSpec(*a, event)
 //@   assigns nothing
 
@@ -397,3 +396,11 @@ package gomatrixserverlib
 //@   ensures complete: (event.StateKeyEquals("") && len(event.PrevEventIDs()) == 0 && a.userIDQuerier(a.roomID, event.SenderID())[1] == nil && a.userIDQuerier(a.roomID, event.SenderID())[0] != nil && (!verKnown(string(event.Version())) || (called(CheckCreateEvent) && ret(CheckCreateEvent) == nil))) ==> err == nil
 //@   calls CheckCreateEvent args: event == old(event) && sender == *a.userIDQuerier(a.roomID, old(event).SenderID())[0] && ref(recv) == verImplRef(string(old(event).Version()))
 //@   assigns nothing
+
+//@ func Allowed
+//@   property C07
+//@   requires authEvents != nil && userIDQuerier != nil && evSafe(event) && providerLaw(authEvents) && providerVersionsKnown(authEvents, userIDQuerier)
+//@   ensures mixed-rooms: !authEvents.Valid() ==> err != nil
+//@   ensures verdict: authEvents.Valid() ==> (called(allowed) && err == ret(allowed))
+//@   calls newAllowerContext fresh-context: provider == authEvents && userIDQuerier == old(userIDQuerier) && roomID == event.RoomID()
+//@   calls allowed same-event: event == old(event) && a == ret(newAllowerContext)
